@@ -131,7 +131,7 @@ def _run(case, eng, res, kind, rows, sched):
                 checks.append(("created_schedule_lists_back", True))
             else:
                 ss = run.result.schedules
-                mem = [(g, e) for g, e in ss.members]
+                mem = [(g, e) for g, e in ss.members] if isinstance(ss, SymSet) else [(True, e) for e in ss]
                 if len(mem) != 1 or mem[0][0] is not True:
                     checks.append(("one_schedule", True))
                 else:
@@ -150,9 +150,12 @@ def _run(case, eng, res, kind, rows, sched):
                 checks.append(("whole_records_parse", True))
             else:
                 ss = run.result.schedules
-                if not isinstance(ss, SymSet):
+                if isinstance(ss, (set, frozenset)):
+                    members = [(True, x) for x in ss]
+                elif isinstance(ss, SymSet):
+                    members = list(ss.members)
+                else:
                     raise E.Unsupported("schedules is %r" % type(ss).__name__)
-                members = list(ss.members)
                 if not recs:
                     checks.append(("empty_reply_no_schedules", False if not members else True))
                 # every record's id is present exactly once, carrying the fields of a record with that id
@@ -273,7 +276,8 @@ def _expected(m, run):
     if run.outcome != "ok":
         return {"exception": type(run.result).__name__}
     out = []
-    for g, s in run.result.schedules.members:
+    ss = run.result.schedules
+    for g, s in (ss.members if isinstance(ss, SymSet) else [(True, x) for x in ss]):
         if C.ev_bool(m, g):
             d = {"schedule_id": C.conc(m, s.schedule_id), "recurring": C.conc(m, s.recurring), "days": C.conc(m, s.days),
                  "start_time": C.conc(m, s.start_time), "end_time": C.conc(m, s.end_time)}
